@@ -119,3 +119,11 @@ package unixfs
 //@   ensures[file] (storedTypeOf(pbdata) == pb.Data_File || storedTypeOf(pbdata) == pb.Data_Raw) ==> err == nil && result0 == storedFilesize(pbdata)
 //@   ensures[symlink] storedTypeOf(pbdata) == pb.Data_Symlink ==> err == nil && result0 == uint64(len(pbdata.Data))
 //@   ensures[dir] (storedTypeOf(pbdata) == pb.Data_Directory || storedTypeOf(pbdata) == pb.Data_HAMTShard) ==> err != nil
+// the accessor the property names: content length for files and raw nodes (the recorded size), for
+// symbolic links the length of the target, whatever the recorded size field says
+//@ func (*FSNode).FileSize
+//@   prop C18
+//@   arith bv
+//@   requires n != nil
+//@   ensures[the_size_rule_applied_to_its_own_format] called("call:size#0") && result == res("call:size#0", 0)
+//@   site[its_own_format] call:size : arg0 == addr(n.format)
